@@ -348,6 +348,11 @@ var commentShapes = []string{
 	" %s trailing spaces    \n",
 	" %s names the package to install\n package main\n",
 	" func %s() { return } // looks like code\n import \"fmt\"\n",
+	" /* DEPRECATED: use %sV2 */ kept for compatibility\n",
+	" /* %s opens a block that never closes\n",
+	" %s closes a block */ that never opened\n",
+	" // %s starts like a line comment\n //go:generate echo\n",
+	" %s costs 100%% and %%d is no verb\n",
 }
 
 func randComment(r *rand.Rand, name string) string {
